@@ -84,7 +84,13 @@ func chanOrigin(p *eng.Prog, f *eng.Func, e ast.Expr, depth int) (made bool, cap
 	if obj == nil || depth > 3 {
 		return false, nil, nil
 	}
-	for g := f; g != nil; g = g.Parent {
+	up := func(g *eng.Func) *eng.Func {
+		if g.Parent != nil {
+			return g.Parent
+		}
+		return g.Adopter // a helper read as part of its one user
+	}
+	for g := f; g != nil; g = up(g) {
 		// parameter of g?
 		if g.Type.Params != nil {
 			idx := 0
@@ -950,6 +956,13 @@ func runC03(c *Ctx) {
 
 	// R11 watcher context lives until the function returns
 	c.Rule("R11")
+	c03R11(c)
+}
+
+// c03R11: the optimistic provide's watcher ends with the function (shared with C06.R8: puts
+// still in flight when Provide has returned must not be cancellable by the caller any more).
+func c03R11(c *Ctx) {
+	p := c.P
 	{
 		f := c.Fn("(*dht.IpfsDHT).optimisticProvide")
 		info := f.Info()
